@@ -45,7 +45,7 @@ Init == /\ dirty = {} /\ clean = {} /\ disk = {} /\ volatile = {} /\ durable = {
 Update(parent, c) ==
   LET new == Nodes(c) \ Nodes(parent)
       ins == IF Bug = "update-skips-cached" THEN {e \in new : <<e[2], e[3]>> \notin clean} ELSE new IN
-  /\ nupd < MaxUpdates /\ Readable(parent)
+  /\ nupd < MaxUpdates /\ (Readable(parent) = TRUE)      \* (= TRUE: keeps TLC from splitting the action on the disjunctions inside)
   /\ nupd' = nupd + 1
   /\ act' = [name |-> "Update", parent |-> parent, root |-> c]
   /\ dirty' = dirty \cup ins
@@ -63,7 +63,7 @@ Commit ==
 
 \* reads that reach the disk fill the clean cache (all at once)
 Warm ==
-  /\ \E e \in disk : <<e[2], e[3]>> \notin clean
+  /\ {e \in disk : <<e[2], e[3]>> \notin clean} # {}
   /\ act' = [name |-> "Warm"]
   /\ clean' = clean \cup {<<e[2], e[3]>> : e \in disk}
   /\ UNCHANGED <<dirty, disk, volatile, durable, nupd, nrst>>
